@@ -389,7 +389,7 @@ func visitInstr(fr *frame, instr ssa.Instruction) continuation {
 		panic("unreachable: phis are processed at block entry")
 
 	case *ssa.Select:
-		panic(unsupported{"select"})
+		fr.env[instr] = i.selectOp(fr, instr)
 
 	default:
 		panic(fmt.Sprintf("unexpected instruction: %T", instr))
